@@ -662,6 +662,23 @@ def gen_I(tier):
                             yield items, layout, ops
 
 
+def gen_B(tier):
+    """Files without delimiter records: the format specification is the very first logical record (or follows another pass directly)."""
+    cfg = [chan('DEPT', 68, units='FEET'), chan('GR  ', 68, units='GAPI'), chan('SP  ', 79, 2, 1)]
+    cfg2 = [chan('DEPT', 68), chan('CALI', 49)]
+    for indirect in (0, 68):
+        spec = base_spec(cfg, 7, 3, indirect=indirect)
+        spec2 = base_spec(cfg2, 4, 4, indirect=indirect, updown=1)
+        ops1 = [['load', 0, None, None], ['load', 0, [1, 7, 2], [1]], ['load', 0, [4, 5, 1], None]]
+        ops2 = ops1 + [['load', 1, None, None], ['load', 1, [1, 4, 2], [1]]]
+        for layout in ({'maxlen': 65535}, {'maxlen': 40}, {'maxlen': 64, 'tif': 'normal'}):
+            yield [['pass', spec, 0]], layout, ops1
+            yield [['pass', spec, 0], 'file_tail'], layout, ops1
+            yield [['pass', spec, 0], ['pass', spec2, 1]], layout, ops2
+            yield [['pass', spec, 0], 'cons', ['pass', spec2, 1], 'file_tail'], layout, ops2
+            yield ['cons', ['pass', spec, 0]], layout, ops1
+
+
 def gen_H(tier):
     cfg = [chan('DEPT', 68), chan('GR  ', 73), chan('SP  ', 68), chan('CALI', 68)]
     cfg2 = [chan('DEPT', 68), chan('CALI', 49)]
@@ -688,7 +705,7 @@ def shards(tier):
     return ([{'gen': 'V', 'part': p, 'of': 32} for p in range(32)] + [{'gen': 'S', 'part': p, 'of': 64} for p in range(64)] +
             [{'gen': 'I', 'part': p, 'of': 16} for p in range(16)] + [{'gen': 'H', 'part': p, 'of': 4} for p in range(4)] +
             [{'gen': 'P', 'part': p, 'of': 8} for p in range(8)] + [{'gen': 'D', 'part': p, 'of': 8} for p in range(8)] +
-            [{'gen': 'O', 'part': p, 'of': 8} for p in range(8)])
+            [{'gen': 'O', 'part': p, 'of': 8} for p in range(8)] + [{'gen': 'B', 'part': p, 'of': 4} for p in range(4)])
 
 
 def run_ops(items, layout, ops, res, shape):
@@ -746,7 +763,7 @@ def run_shard(shard, tier):
             res.case(h64(repr((items, layout))), nontrivial=True, outcome=h64((st, tr)),
                      sample={'items': items, 'layout': layout, 'states': st, 'transitions': tr, 'frontier_closed': closed})
         return res
-    gen = {'V': gen_V, 'S': gen_S, 'I': gen_I, 'P': gen_P, 'D': gen_D, 'O': gen_O}[g](tier)
+    gen = {'V': gen_V, 'S': gen_S, 'I': gen_I, 'P': gen_P, 'D': gen_D, 'O': gen_O, 'B': gen_B}[g](tier)
     for i, (items, layout, ops) in enumerate(gen):
         if i % shard['of'] != shard['part']:
             continue
